@@ -461,6 +461,76 @@ def mk_for_each(try_):
         return results
     return m
 
+def _known_elems(itv):
+    """elements of an iterator over a collection whose elements are all known, else None"""
+    src, pos = (itv[1], itv[2]) if itv[0] == 'iterpos' else (itv, 0)
+    coll = src[1] if src[0] == 'iter' else src
+    if coll[0] in ('vec', 'arr'): return list(coll[1][pos:])
+    return None
+
+def mk_iter_adaptor(kind):
+    """map / filter / filter_map / any / all over an iterator whose elements are all known (array or vec literals, vectors built by
+    push): the closure is applied element by element on the path state (forking on its outcome), as the loop would. Over an unknown
+    source the call stays an opaque term with the closure summarised (the rules compose such pipelines themselves)."""
+    def m(it, st, args, info):
+        itv = strip_named(it.deref(st, args[0]))
+        elems = _known_elems(itv)
+        f = strip_named(it.deref(st, args[1])) if len(args) > 1 else None
+        if elems is None or f is None or f[0] not in ('closure', 'fnitem'):
+            if kind == 'any' and f is not None and f[0] == 'closure':
+                # x.iter().any(|_| true) is `!x.is_empty()`
+                lam = it.snapshot(st, f, info['site'])
+                if lam[0] == 'lambda' and len(lam[3]) == 1 and not lam[3][0][0] and lam[3][0][1] == TRUE:
+                    src = itv[1] if itv[0] == 'iter' else itv
+                    return mk_not(('call', 'is_empty', (), (src,)))
+            return it.opaque_call(st, info, args)
+        states = [(st, [])]
+        for e in elems:
+            nxt = []
+            for s, acc in states:
+                if acc is None: nxt.append((s, acc)); continue      # short-circuited (any / all)
+                for s2, r in it.apply_callable(s, args[1], [e], info['site']):
+                    r = strip_named(it.deref(s2, r))
+                    if kind == 'map': nxt.append((s2, acc + [r]))
+                    elif kind == 'filter_map':
+                        for s3, v in it.fork_variants(s2, r, ['Some', 'None'], info['site']):
+                            nxt.append((s3, acc + [variant_payload(r, 'Some')] if v == 'Some' else acc))
+                    else:
+                        for s3, b in branch_bool(it, s2, r, info['site']):
+                            if kind == 'filter': nxt.append((s3, acc + [e] if b else acc))
+                            elif kind == 'any': nxt.append((s3, None if b else acc))
+                            else: nxt.append((s3, acc if b else None))
+            states = nxt
+        if kind in ('any', 'all'):
+            return [(s, C((acc is None) if kind == 'any' else (acc is not None))) for s, acc in states]
+        return [(s, ('iter', ('vec', tuple(acc)))) for s, acc in states]
+    return m
+
+def mk_lt(a, b):
+    if a[0] == 'c' and b[0] == 'c' and not isinstance(a[1], (bool, str)) and not isinstance(b[1], (bool, str)): return C(a[1] < b[1])
+    return ('lt', a, b)
+
+def m_range_contains(it, st, args, info):
+    """(lo..=hi).contains(&x) / (lo..hi).contains(&x): decided by the two comparisons, forking like the written-out test would"""
+    r = strip_named(it.deref(st, args[0])); x = strip_named(it.deref(st, args[1]))
+    if r[0] == 'call' and str(r[1]).endswith('RangeInclusive::<Idx>::new') and len(r[3]) == 2:
+        lo, hi = strip_named(r[3][0]), strip_named(r[3][1])
+    elif r[0] == 'adt' and len(r[3]) >= 2:
+        d = dict(r[3]); lo = d.get('start'); hi = d.get('end')
+    else: return it.opaque_call(st, info, args)
+    if lo is None or hi is None: return it.opaque_call(st, info, args)
+    inclusive = 'RangeInclusive' in r[1]
+    outs = []
+    unsigned = any(str(t).lstrip('&') in ('u8', 'u16', 'u32', 'u64', 'u128', 'usize') for t in (info.get('targs') or ()))
+    below_term = FALSE if (unsigned and lo == C(0)) else mk_lt(x, lo)      # an unsigned value is never below 0
+    for s, below in branch_bool(it, st, below_term, info['site']):
+        if below: outs.append((s, FALSE)); continue
+        above = mk_lt(hi, x) if inclusive else mk_not(mk_lt(x, hi))
+        if inclusive and hi[0] == 'konst' and str(hi[1]).endswith('::MAX'): above = FALSE      # nothing exceeds the type's maximum
+        for s2, ab in branch_bool(it, s, above, info['site']):
+            outs.append((s2, FALSE if ab else TRUE))
+    return outs
+
 def m_collect(it, st, args, info):
     return ('call', 'collect', (info.get('dest_ty') or '',), (it.snapshot(st, args[0], info['site']),))
 
@@ -731,6 +801,11 @@ EXACT = {
     'core::slice::<impl [T]>::iter': m_slice_iter,
     'std::iter::Iterator::next': m_iter_next,
     'std::iter::Iterator::collect': m_collect,
+    'std::iter::Iterator::map': mk_iter_adaptor('map'), 'std::iter::Iterator::filter': mk_iter_adaptor('filter'),
+    'std::iter::Iterator::filter_map': mk_iter_adaptor('filter_map'),
+    'std::iter::Iterator::any': mk_iter_adaptor('any'), 'std::iter::Iterator::all': mk_iter_adaptor('all'),
+    'std::ops::RangeInclusive::<Idx>::contains': m_range_contains, 'std::ops::Range::<Idx>::contains': m_range_contains,
+    'std::iter::Iterator::cloned': m_identity, 'std::iter::Iterator::copied': m_identity,      # element-wise copies: same sequence
     'std::iter::Iterator::for_each': mk_for_each(False),
     'std::iter::Iterator::try_for_each': mk_for_each(True),
     'cw_storage_plus::Map::<\'a, K, T>::new': m_storage_new('Map'),
